@@ -170,6 +170,17 @@ def judge_cli(rc, out, err, must_reject):
     return ("cli:abnormal-exit", "command-line run ended with status %s without a diagnostic: %s" % (rc, text.strip().splitlines()[-1:] ))
 
 
+def twin_diff(x, y):
+    def norm(k, v):
+        # a tolerance of exactly 0 can never be met: the setters store it as 'disabled' (-1), the parser keeps it as 0 - the same
+        # stopping behaviour, only the getter differs
+        if k in ("g_abstol", "g_reltol") and v is not None and float(v) <= 0:
+            return "off"
+        return v
+    return [k for k in sorted(set(x) | set(y)) if (k.startswith("g_") or k in ("its", "rho", "e2", "einf", "sol", "levels", "nr", "nt"))
+            and norm(k, x.get(k)) != norm(k, y.get(k))]
+
+
 def main(tier):
     rep = common.Reporter(PID, tier, LEVEL)
     b = _build()
@@ -238,6 +249,29 @@ def main(tier):
         if verdict:
             rep.violation(verdict[0] + (":" + next(iter(c)) if kind == "invalid" else ""), verdict[1] + "  [gmgpolar %s]" % " ".join(args),
                           {"args": args, "entry": "cli", "must_reject": must})
+    # 5. the two ways of configuring a solver agree: default constructor + setParameters(argc, argv) (src/main.cpp) against the
+    #    four-argument constructor + setters, for every configuration that completes through the setters: same option getters, same
+    #    iteration count, reduction factor, error figures and solution (release build; both runs in the harness)
+    twin_ids = [i for i in ok_ids if cfgs[i].get("gridfile", 0) == 0 and cfgs[i].get("exact", 1) == 1]
+    twin_lines = [("w%05d" % i, gl.line_of("w%05d" % i, cfgs[i], argv="|".join(cli_args(cfgs[i])))) for i in twin_ids]
+    api_lines = [("o%05d" % i, gl.line_of("o%05d" % i, cfgs[i])) for i in twin_ids]
+    rt = gl.run_cases(b["rel"], twin_lines)
+    ro = gl.run_cases(b["rel"], api_lines)
+    counts["cli_vs_api_pairs"] = len(twin_ids)
+    for i in twin_ids:
+        x, y = ro.get("o%05d" % i, {}), rt.get("w%05d" % i, {})
+        if x.get("status") != "ok":
+            continue
+        if y.get("status") != "ok":
+            rep.violation("cli-vs-api:acceptance", "options that run through the setters are %s through setParameters(argc, argv): %s  [gmgpolar %s]" %
+                          (y.get("status"), y.get("what") or gl.crash_line(y.get("stderr")), " ".join(cli_args(cfgs[i]))),
+                          {"config": cfgs[i], "entry": "cli-vs-api"})
+            continue
+        diff = twin_diff(x, y)
+        if diff:
+            rep.violation("cli-vs-api:%s" % diff[0], "configured through setParameters(argc, argv) the solver differs from the same options set through the "
+                          "setters in %s (e.g. %s: %s vs %s)  [gmgpolar %s]" % (diff, diff[0], y.get(diff[0]), x.get(diff[0]), " ".join(cli_args(cfgs[i]))),
+                          {"config": cfgs[i], "entry": "cli-vs-api"})
     # 4. valgrind slice: no use of uninitialised values in the shipped configuration
     vg = [i for i in ok_ids if cfgs[i]["nr_exp"] <= 3 or cfgs[i].get("maxit", 150) <= 3][:(40 if tier == "thorough" else 12)]
     tmp = tempfile.mkdtemp(prefix="c20", dir=common.BUILD)
@@ -300,6 +334,21 @@ def replay(path):
         print("replay: property held")
         return 0
     cfg = rp["config"]
+    if rp.get("entry") == "cli-vs-api":
+        outs = []
+        for _ in range(2):
+            x = gl.run_cases(b["rel"], [("r0", gl.line_of("r0", cfg))]).get("r0", {})
+            y = gl.run_cases(b["rel"], [("r1", gl.line_of("r1", cfg, argv="|".join(cli_args(cfg))))]).get("r1", {})
+            outs.append((x.get("status"), y.get("status"), twin_diff(x, y) if x.get("status") == "ok" and y.get("status") == "ok" else []))
+        if outs[0] != outs[1]:
+            print("replay is not deterministic; refusing to report")
+            return 2
+        print(outs[0])
+        if outs[0][0] == "ok" and (outs[0][1] != "ok" or outs[0][2]):
+            print("VIOLATION property=%s replay=%s" % (PID, path))
+            return 1
+        print("replay: property held")
+        return 0
     if rp.get("entry") == "stats":
         x = gl.run_cases(b["rel"], [("r0", gl.line_of("r0", cfg, stackfill=90))], env={"MALLOC_PERTURB_": "165"}).get("r0", {})
         y = gl.run_cases(b["rel"], [("r0", gl.line_of("r0", cfg, stackfill=255))], env={"MALLOC_PERTURB_": "90"}).get("r0", {})
